@@ -8,6 +8,7 @@ import (
 	"math/rand"
 	"os"
 	"path/filepath"
+	"sort"
 	"strings"
 	"time"
 
@@ -108,8 +109,12 @@ func exportHubFamily(c *vk.Ctx, cfgs []HubCfg) (*graph.Graph, tlcrun.Result) {
 	if g.Init == "" {
 		c.Infra("initial state not found in exported Revocation family graph")
 	}
+	hubGraphs = []*graph.Graph{g}
 	return g, res
 }
+
+// hubGraphs: the graphs of the latest export (looked up by state when a walk leaves the model, see hubAfterDivergence).
+var hubGraphs []*graph.Graph
 
 // exportHubGraphs explores several configurations in one TLC run (cfg is chosen in Init) and splits the
 // exported edges by configuration. maxSteps = 0 explores the complete graphs.
@@ -173,6 +178,7 @@ func exportHubGraphs(c *vk.Ctx, cfgs []HubCfg, dev []string, maxSteps int) ([]*g
 		// the initial state: phase new, nothing known, nothing stored
 		for s, raw := range g.State {
 			var st struct {
+				Cfg   HubCfg `json:"cfg"`
 				Phase string `json:"phase"`
 				Ent   map[string]struct {
 					Meta bool  `json:"meta"`
@@ -181,14 +187,16 @@ func exportHubGraphs(c *vk.Ctx, cfgs []HubCfg, dev []string, maxSteps int) ([]*g
 				} `json:"ent"`
 			}
 			json.Unmarshal(raw, &st)
-			if st.Phase == "new" && !st.Ent["D"].Meta && !st.Ent["U"].Meta && !st.Ent["D"].Locs && !st.Ent["U"].Locs && len(st.Ent["D"].Keys) == 0 && len(st.Ent["U"].Keys) == 0 {
+			// (a restart may switch to another configuration of CfgSpace: its fresh state is a leaf of this graph, not its start)
+			if st.Cfg.String() == cfgs[i].String() && st.Phase == "new" && !st.Ent["D"].Meta && !st.Ent["U"].Meta && !st.Ent["D"].Locs && !st.Ent["U"].Locs && len(st.Ent["D"].Keys) == 0 && len(st.Ent["U"].Keys) == 0 {
 				g.Init = s
 			}
 		}
-		if g.Init == "" {
+		if g.Init == "" || len(g.Out[g.Init]) == 0 {
 			c.Infra("initial state not found in exported Revocation graph of %s", cfgs[i])
 		}
 	}
+	hubGraphs = gs
 	return gs, res
 }
 
@@ -233,18 +241,26 @@ type hubWorld struct {
 	poisoned     bool // a call never returned: the validator holds locks forever, do not touch it again
 	chainVariant string
 	ocspHits     int
+	pathD, pathU string
 }
 
-const (
-	pathD    = "/cdp/d.crl"
-	pathU    = "/conf/u.crl"
-	pathOCSP = "/ocsp"
-)
+const pathOCSP = "/ocsp"
+
+// locationSpellings: how the two abstract locations D (distribution point of c1) and U (configured) are spelt. They are different
+// resources in every variant; in the last two they differ only in the letter case of the path or only in the query, which
+// a location identity that is coarser than the URL itself would confuse.
+var locationSpellings = [][2]string{
+	{"/cdp/d.crl", "/conf/u.crl"},
+	{"/crl/Hub-CA-n1.crl", "/crl/hub-ca-n1.crl"},
+	{"/crl/hub-ca-n1.crl?Partition=Delta", "/crl/hub-ca-n1.crl?partition=delta"},
+}
 
 func newHubWorld(cfg HubCfg, shape Shape, seed int64) (*hubWorld, error) {
 	h := &hubWorld{cfg: cfg, shape: shape, rng: rand.New(rand.NewSource(seed)), cas: map[string]*pki.CA{}, leaves: map[string]*pki.Leaf{},
 		chains: map[string][][]*x509.Certificate{}, idOf: map[string]string{}, lastDoc: map[string]hubDoc{}}
 	h.org = origin.New()
+	sp := locationSpellings[int(seed/11)%len(locationSpellings)]
+	h.pathD, h.pathU = sp[0], sp[1]
 	alg := "ecdsa"
 	if seed%3 == 0 {
 		alg = "rsa"
@@ -271,7 +287,7 @@ func newHubWorld(cfg HubCfg, shape Shape, seed int64) (*hubWorld, error) {
 	case "down":
 		ocspURLs = []string{origin.ClosedPortURL() + pathOCSP}
 	}
-	h.leaves["c1"] = h.cas["A"].Leaf(pki.LeafOpts{CN: "c1", Serial: shape.Serial(1), CDP: []string{h.org.URL + pathD}, OCSP: ocspURLs, NoKeyUsage: seed%2 == 1})
+	h.leaves["c1"] = h.cas["A"].Leaf(pki.LeafOpts{CN: "c1", Serial: shape.Serial(1), CDP: []string{h.org.URL + h.pathD}, OCSP: ocspURLs, NoKeyUsage: seed%2 == 1})
 	// "E": the end-entity signing CRLs with its own key (issuer name = its subject, AKI = its key identifier)
 	h.cas["E"] = &pki.CA{Name: "c1", Key: h.leaves["c1"].Key, Cert: h.leaves["c1"].Cert, Alg: "ecdsa"}
 	h.leaves["c2"] = h.cas["A"].Leaf(pki.LeafOpts{CN: "c2", Serial: shape.Serial(2)})
@@ -300,6 +316,11 @@ func newHubWorld(cfg HubCfg, shape Shape, seed int64) (*hubWorld, error) {
 		h.org.Set(pathOCSP, origin.Behaviour{Kind: "func", Func: func([]byte) (int, []byte) { return 200, resp }})
 	}
 	wc := world.Cfg{Sig: cfg.Sig, CdpStrict: cfg.Strict, AiaStrict: cfg.Aia, Interval: "1h"}
+	if (seed/13)%3 != 0 {
+		// the responder of a configuration never changes its mind, so caching its answers is invisible to the model: two worlds
+		// in three run with the OCSP cache on (whatever else a verdict is made of must not leak into it)
+		wc.CacheDur = "1h"
+	}
 	if cfg.Mode != "unset" {
 		wc.Mode = cfg.Mode
 	}
@@ -325,7 +346,7 @@ func newHubWorld(cfg HubCfg, shape Shape, seed int64) (*hubWorld, error) {
 	}
 	switch cfg.Conf {
 	case "url":
-		w.Cfg.CRLUrls = []string{h.org.URL + pathU}
+		w.Cfg.CRLUrls = []string{h.org.URL + h.pathU}
 	case "file":
 		h.uFile = filepath.Join(w.Sandbox, "configured.crl")
 		w.Cfg.CRLFiles = []string{h.uFile}
@@ -361,8 +382,8 @@ func (h *hubWorld) destroy() {
 	if h.hooks != nil {
 		// a parked background update is let go against a fast-failing origin (an unreachable one would cost the retry loop)
 		if h.hooks.ForcedParked() > 0 {
-			h.org.SetBody(pathD, []byte("gone"))
-			h.org.SetBody(pathU, []byte("gone"))
+			h.org.SetBody(h.pathD, []byte("gone"))
+			h.org.SetBody(h.pathU, []byte("gone"))
 		}
 		h.hooks.ReleaseForced(10 * time.Second)
 	}
@@ -410,7 +431,11 @@ func (h *hubWorld) publish(l string, d hubDoc) {
 		if d.Signer == "E" {
 			sh.Num = "absent" // crypto/x509 refuses to sign a CRL with a non-CA certificate: rendered by derbuild
 		}
-		body = BuildCRL(CRLSpec{Signer: h.cas[d.Signer], Listed: listed, Avoid: avoid, CritExt: d.Q == "critext", Number: h.number}, sh)
+		spec := CRLSpec{Signer: h.cas[d.Signer], Listed: listed, Avoid: avoid, CritExt: d.Q == "critext", Number: h.number}
+		if d.Signer == "B" {
+			spec.ForeignIssuerRaw = h.cas["A"].Cert.RawSubject
+		}
+		body = BuildCRL(spec, sh)
 	}
 	if l == "U" && h.cfg.Conf == "file" {
 		if d.Q == "down" {
@@ -420,18 +445,18 @@ func (h *hubWorld) publish(l string, d hubDoc) {
 		}
 		return
 	}
-	path := pathD
+	path := h.pathD
 	if l == "U" {
-		path = pathU
+		path = h.pathU
 	}
 	h.org.Set(path, origin.Behaviour{Kind: kind, Body: body})
 }
 
 func (h *hubWorld) hits(l string) int {
 	if l == "D" {
-		return h.org.Hits(pathD)
+		return h.org.Hits(h.pathD)
 	}
-	return h.org.Hits(pathU)
+	return h.org.Hits(h.pathU)
 }
 
 // realLoaded maps repository entries to the model's locations.
@@ -638,6 +663,9 @@ func runHubWalk(c *vk.Ctx, cfg HubCfg, walk []*graph.Edge, shape Shape, seed int
 				b, _ := json.Marshal(map[string]any{"cfg": cfg, "shape": shape, "chain": h.chainVariant, "steps": hist})
 				fmt.Fprintf(os.Stderr, "HUBDRIFT %s %s\n", drift, b)
 			}
+			if divergencePreds[c.ID] && !h.poisoned && (strings.HasPrefix(drift, "loaded-") || strings.HasPrefix(drift, "fetch-")) {
+				done += hubAfterDivergence(c, h, cfg, e, shape, hist, preds)
+			}
 			return done
 		}
 		if c.Violations() > 6 {
@@ -645,6 +673,99 @@ func runHubWalk(c *vk.Ctx, cfg HubCfg, walk []*graph.Edge, shape Shape, seed int
 		}
 	}
 	return done
+}
+
+// divergencePreds: the properties whose violation predicate reads nothing but the requirement layer of the model (which list
+// policy says is in force where) and the real verdict. For them a walk that has left the model's mechanism state is not simply
+// abandoned (see hubAfterDivergence).
+var divergencePreds = map[string]bool{"C01": true, "C10": true, "C11": true, "C15": true}
+
+// hubAfterDivergence: the code's state no longer matches the model's (for example an entry that the model keeps is gone). That
+// alone is drift, not a verdict. But if every origin currently serves either exactly the document that policy says is in force
+// there or nothing usable, then no correct implementation can have moved to another list, whenever it fetches: the requirement
+// layer of the model state still says what must hold. Under that condition the three certificates are presented once more,
+// without publishing anything, and the property's predicate judges the real verdicts.
+func hubAfterDivergence(c *vk.Ctx, h *hubWorld, cfg HubCfg, last *graph.Edge, shape Shape, hist []hubStep, preds []hubPredicate) int {
+	var outs []*graph.Edge
+	for _, g := range hubGraphs {
+		if o := g.Out[last.To]; len(o) > 0 {
+			outs = o
+		}
+	}
+	dbg := func(f string, a ...any) {
+		if os.Getenv("VERIF_DEBUG") != "" {
+			fmt.Fprintf(os.Stderr, "DIVERGED "+f+"\n", a...)
+		}
+	}
+	if len(outs) == 0 {
+		dbg("no out edges for the model state")
+		return 0
+	}
+	var st struct {
+		Accepted map[string]hubDoc `json:"accepted"`
+	}
+	if json.Unmarshal([]byte(last.To), &st) != nil || st.Accepted == nil {
+		return 0
+	}
+	same := func(a, b hubDoc) bool {
+		ka, kb := append([]int(nil), a.Keys...), append([]int(nil), b.Keys...)
+		sort.Ints(ka)
+		sort.Ints(kb)
+		return a.Signer == b.Signer && a.Q == b.Q && fmt.Sprint(ka) == fmt.Sprint(kb)
+	}
+	for _, l := range []string{"D", "U"} {
+		served, ok := h.lastDoc[l]
+		if !ok || served.Q == "down" || served.Q == "garbage" {
+			continue
+		}
+		if !same(served, st.Accepted[l]) {
+			dbg("origin %s serves %+v, in force is %+v", l, served, st.Accepted[l])
+			return 0 // the origin offers another document: an implementation may legitimately hold it
+		}
+	}
+	n := 0
+	for _, cert := range []string{"c1", "c2", "c3"} {
+		var pick *graph.Edge
+		for _, e := range outs {
+			var op []any
+			json.Unmarshal(e.Op, &op)
+			if op[0] != "handshake" || op[1] != cert {
+				continue
+			}
+			served, ok := h.lastDoc["D"]
+			if !ok {
+				served = hubDoc{Signer: "A", Q: "down"}
+			}
+			var ex hubExpect
+			json.Unmarshal(e.Expect, &ex)
+			// (a handshake that fetches nothing in the model carries no document; otherwise take the edge with what D serves)
+			if ex.Fetch["D"] == 0 || (len(op) > 2 && same(parseDoc(op[2]), served)) {
+				pick = e
+			}
+		}
+		if pick == nil {
+			dbg("no handshake edge of %s with the served document", cert)
+			continue
+		}
+		var exp hubExpect
+		json.Unmarshal(pick.Expect, &exp)
+		var op []any
+		json.Unmarshal(pick.Op, &op)
+		r := h.w.HandshakeTimeout(h.chains[cert], 30*time.Second)
+		if r.Verdict == "hang" {
+			h.poisoned = true
+			return n
+		}
+		obs := &hubObs{Cfg: cfg, Op: op, Exp: exp, Shape: shape, Verdict: r.Verdict, Err: r.Err, Cdp: certCdp(cert), Loaded: h.realLoaded(), SawRej: h.sawRej, ChainVariant: h.chainVariant}
+		hist = append(hist, hubStep{Op: pick.Op, Expect: pick.Expect, Real: map[string]any{"verdict": r.Verdict, "err": r.Err, "note": "presented after the code's state had left the model's; the origins serve only the list in force or nothing usable"}})
+		obs.Hist = hist
+		c.Eval(cfg.String() + "|diverged|" + last.To + "|" + string(pick.Op))
+		n++
+		for _, p := range preds {
+			p(c, obs)
+		}
+	}
+	return n
 }
 
 // hubDrift compares the projection of the real state with the model; "" if they agree.
@@ -735,6 +856,9 @@ func pruneDown(g *graph.Graph, keep int, rng *rand.Rand) *graph.Graph {
 	return ng
 }
 
+// allDownEdges: since the retry pauses are paced (world.FastRetries) an unreachable origin costs no more than any other document
+const allDownEdges = 1 << 30
+
 // hubCampaign: export the graph of each configuration and replay walks until the edge budget is used.
 func hubCampaign(c *vk.Ctx, cfgs []HubCfg, edgeBudget int, downKeep int, walkLen int, preds ...hubPredicate) {
 	rng := rand.New(rand.NewSource(c.Seed))
@@ -764,5 +888,75 @@ func hubCampaign(c *vk.Ctx, cfgs []HubCfg, edgeBudget int, downKeep int, walkLen
 	}
 	c.Add("states", states)
 	c.Add("transitions", trans)
+	c.Add("traces_validated_against_impl", int64(walks))
+}
+
+// docsOfEdge returns the documents that an edge really fetches according to the model (handshake: D; refresh / bgload: D and
+// U; provision: U). The document parameter of a step that fetches nothing is a placeholder and does not count.
+func docsOfEdge(e *graph.Edge) []hubDoc {
+	var op []any
+	json.Unmarshal(e.Op, &op)
+	var exp hubExpect
+	json.Unmarshal(e.Expect, &exp)
+	var out []hubDoc
+	switch op[0].(string) {
+	case "handshake":
+		if len(op) > 2 && exp.Fetch["D"] > 0 {
+			out = append(out, parseDoc(op[2]))
+		}
+	case "refresh", "bgload":
+		if o, ok := op[1].(map[string]any); ok {
+			for _, l := range []string{"D", "U"} {
+				if d, ok := o[l]; ok && exp.Fetch[l] > 0 {
+					out = append(out, parseDoc(d))
+				}
+			}
+		}
+	case "provision":
+		if len(op) > 1 && exp.Fetch["U"] > 0 {
+			out = append(out, parseDoc(op[1]))
+		}
+	}
+	return out
+}
+
+// hubFocus replays tours of the sub-graph whose served documents all satisfy keep, with shapes drawn by shapeFn: a way to spend a
+// budget on one clause of a property (a class of documents x a class of byte shapes) instead of on the whole graph.
+func hubFocus(c *vk.Ctx, cfgs []HubCfg, edgeBudget int, keep func(hubDoc) bool, shapeFn func(*rand.Rand) Shape, preds ...hubPredicate) {
+	rng := rand.New(rand.NewSource(c.Seed + 77))
+	walks := 0
+	perCfg := edgeBudget / len(cfgs)
+	for ci, cfg := range cfgs {
+		g, _ := exportHubGraph(c, cfg, nil)
+		ng := graph.New()
+		for _, e := range g.Edges {
+			ok := true
+			for _, d := range docsOfEdge(e) {
+				if !keep(d) {
+					ok = false
+				}
+			}
+			if ok {
+				ng.AddPayload(e.Raw)
+			}
+		}
+		ng.Finish(g.Init)
+		if len(ng.Out[ng.Init]) == 0 {
+			c.Infra("hubFocus: the filtered graph of %s has no edge out of its initial state", cfg)
+		}
+		tour := ng.Tour(40, rng)
+		if os.Getenv("VERIF_DEBUG") != "" {
+			fmt.Fprintf(os.Stderr, "HUBFOCUS cfg=%s edges=%d kept=%d walks=%d out(init)=%d\n", cfg, len(g.Edges), len(ng.Edges), len(tour), len(ng.Out[ng.Init]))
+		}
+		rng.Shuffle(len(tour), func(i, j int) { tour[i], tour[j] = tour[j], tour[i] })
+		used := 0
+		for wi, w := range tour {
+			if used >= perCfg || c.Violations() > 6 {
+				break
+			}
+			used += runHubWalk(c, cfg, w, shapeFn(rng), c.Seed*1000+int64(5000+ci*100+wi), preds...)
+			walks++
+		}
+	}
 	c.Add("traces_validated_against_impl", int64(walks))
 }
